@@ -16,6 +16,11 @@ package rdb
 //verif:subst * (*github.com/facebookincubator/dns/dnsrocks/cgo-rocksdb.Iterator).Value github.com/facebookincubator/dns/dnsrocks/dnsdata/rdb.VerifIterValue
 //verif:subst * (*github.com/facebookincubator/dns/dnsrocks/cgo-rocksdb.Iterator).GetError github.com/facebookincubator/dns/dnsrocks/dnsdata/rdb.VerifIterGetError
 //verif:subst * (*github.com/facebookincubator/dns/dnsrocks/cgo-rocksdb.Iterator).FreeIterator github.com/facebookincubator/dns/dnsrocks/dnsdata/rdb.VerifIterFree
+//verif:subst * github.com/facebookincubator/dns/dnsrocks/cgo-rocksdb.CreateSSTFileWriter github.com/facebookincubator/dns/dnsrocks/dnsdata/rdb.VerifCreateSST
+//verif:subst * (*github.com/facebookincubator/dns/dnsrocks/cgo-rocksdb.SSTFileWriter).Put github.com/facebookincubator/dns/dnsrocks/dnsdata/rdb.VerifSSTPut
+//verif:subst * (*github.com/facebookincubator/dns/dnsrocks/cgo-rocksdb.SSTFileWriter).Finish github.com/facebookincubator/dns/dnsrocks/dnsdata/rdb.VerifSSTFinish
+//verif:subst * (*github.com/facebookincubator/dns/dnsrocks/cgo-rocksdb.SSTFileWriter).GetFileSize github.com/facebookincubator/dns/dnsrocks/dnsdata/rdb.VerifSSTSize
+//verif:subst * (*github.com/facebookincubator/dns/dnsrocks/cgo-rocksdb.SSTFileWriter).CloseWriter github.com/facebookincubator/dns/dnsrocks/dnsdata/rdb.VerifSSTClose
 //verif:subst * (*github.com/facebookincubator/dns/dnsrocks/cgo-rocksdb.ReadOptions).FreeReadOptions github.com/facebookincubator/dns/dnsrocks/dnsdata/rdb.VerifFreeRO
 //verif:subst * (*github.com/facebookincubator/dns/dnsrocks/cgo-rocksdb.WriteOptions).FreeWriteOptions github.com/facebookincubator/dns/dnsrocks/dnsdata/rdb.VerifFreeWO
 
@@ -367,3 +372,42 @@ func VerifModelOf(r *RDB) *VerifDB {
 	m, _ := r.db.(*VerifDB)
 	return m
 }
+
+// ---- SST file writer model: keys must be added in strictly ascending order (RocksDB's
+// documented contract for SstFileWriter); a finished file can be ingested. ----
+
+type verifSST struct {
+	path     string
+	snap     *VerifSnap
+	finished bool
+}
+
+var verifSSTWriters = map[*rocksdb.SSTFileWriter]*verifSST{}
+
+var ErrVerifSSTOrder = errors.New("verif: SST keys must be added in strictly ascending order")
+
+func VerifCreateSST(path string) (*rocksdb.SSTFileWriter, error) {
+	w := &rocksdb.SSTFileWriter{}
+	verifSSTWriters[w] = &verifSST{path: path, snap: &VerifSnap{}}
+	return w, nil
+}
+
+func VerifSSTPut(w *rocksdb.SSTFileWriter, key, value []byte) error {
+	m := verifSSTWriters[w]
+	if n := len(m.snap.Keys); n > 0 && bytes.Compare(m.snap.Keys[n-1], key) >= 0 {
+		return ErrVerifSSTOrder
+	}
+	m.snap.Keys = append(m.snap.Keys, verifCopy(key))
+	m.snap.Vals = append(m.snap.Vals, verifCopy(value))
+	return nil
+}
+
+func VerifSSTFinish(w *rocksdb.SSTFileWriter) error {
+	m := verifSSTWriters[w]
+	m.finished = true
+	VerifSSTs[m.path] = m.snap
+	return nil
+}
+
+func VerifSSTSize(w *rocksdb.SSTFileWriter) uint64 { return uint64(len(verifSSTWriters[w].snap.Keys)) }
+func VerifSSTClose(w *rocksdb.SSTFileWriter)       {}
